@@ -230,6 +230,22 @@ def run(ctx):
     for size in range(1, 4):
         for chunk in core.split(range(len(q_odd)), 12):
             jobs.append(("multi", (odd, chunk, size, q_odd)))
+    # coordinates that do not add or subtract exactly in binary: tenths, and whole numbers
+    # beyond 2^53 (touching boxes there are where a rearranged overlap test rounds the wrong
+    # way; the comparisons of the statement themselves are always exact)
+    tenths = [0.0, 0.1, 0.2, 0.3]
+    q_tenths = boxes_over(tenths)
+    huge = [float(1 << 53), float((1 << 53) + 2), float((1 << 53) + 6), float((1 << 53) + 8)]
+    q_huge = boxes_over(huge)
+    for alphabet, q_alpha in ((tenths, q_tenths), (huge, q_huge)):
+        for size in (1, 2):
+            for chunk in core.split(range(len(q_alpha)), 25):
+                jobs.append(("multi", (alphabet, chunk, size, q_alpha)))
+    sevenths = [0.7, 0.9, 1.0]
+    q_sev = boxes_over(sevenths)
+    for size in (1, 2, 3):
+        for chunk in core.split(range(len(q_sev)), 12):
+            jobs.append(("multi", (sevenths, chunk, size, q_sev)))
     for chunk in core.split(range(1 << len(ARRANGEMENT)), 32):
         jobs.append(("subset", chunk))
     for chunk in core.split(multiscale_collections(ctx), 16):
@@ -251,7 +267,8 @@ def run(ctx):
         "distinct_nontrivial": cnt.get("nontrivial", 0),
         "rule": f"all multisets of 1..{max_n} boxes over coordinates {{0,1,2}} (36 boxes, 9+9 "
                 "degenerate) x all 36 query boxes; multisets of 1..2(3) boxes over {0,1,2,3} x 100 "
-                "queries; a seed-derived 3-coordinate alphabet; all 4096 subsets of a 12-box "
+                "queries; a seed-derived 3-coordinate alphabet; multisets of 1..2 boxes over tenths {0,.1,.2,.3} "
+                "and over {2^53, +2, +6, +8} x 100 queries, 1..3 boxes over {.7,.9,1}; all 4096 subsets of a 12-box "
                 "arrangement x 16 queries; collections of 20..96 (128) boxes on geometric scales "
                 "(tree depth up to max_tree_depth) queried with every box, its centre and the "
                 "focus; the empty collection; non-trivial = collections whose "
